@@ -1,6 +1,6 @@
 """native list-model replay for C03: histories of Stream methods"""
 import itertools
-from . import outcome
+from . import outcome, Counting
 
 INF = float("inf")
 NS = [None, -1, 0, 1, 2, 3, 5, 2.4, 2.6, INF]
@@ -154,6 +154,52 @@ class append_then:
         got = list(s)
         if got != exp:
             return "s.append(t); t.%s(...); list(s) = %r, list model says %r" % (op, got, exp)
+        return None
+
+
+class filter_items:
+    """Stream.filter keeps an item iff func(item) is true FOR THAT ITEM (items that are equal / hash-equal but
+    distinguishable, predicates with state), lazily, and returns the same stream"""
+    DATA = [[1, 1.0, True, 2, 2.0, 0, 0.0, False, -0.0], [1.0, 1, 1.0, 1], [], [3], ["a", "b", "a"], [(1,), (1.0,), (1,)]]
+
+    @staticmethod
+    def candidates(hints):
+        for di in range(len(filter_items.DATA)):
+            for pred in ("is-float", "is-int-not-bool", "every-other-call", "truthy-type-bool", "always", "never"):
+                for pre in (0, 1):
+                    yield {"data": di, "pred": pred, "pre": pre}
+
+    @staticmethod
+    def check(inp):
+        from audiolazy import Stream
+        data = list(filter_items.DATA[inp["data"]])
+
+        def mk():
+            calls = [0]
+
+            def every_other(x):
+                calls[0] += 1
+                return calls[0] % 2 == 1
+            return {"is-float": lambda x: isinstance(x, float), "is-int-not-bool": lambda x: type(x) is int,
+                    "every-other-call": every_other, "truthy-type-bool": lambda x: isinstance(x, bool),
+                    "always": lambda x: True, "never": lambda x: False}[inp["pred"]]
+        src = Counting(data)
+        s = Stream(src)
+        rest = list(data)
+        for _ in range(inp["pre"]):
+            if rest:
+                next(iter(s)); rest.pop(0)
+        p_real, p_model = mk(), mk()
+        before = src.pulled
+        r = outcome(lambda: s.filter(p_real))
+        if r[0] != "ok" or r[1] is not s:
+            return "filter should return the same stream, got %r" % (r,)
+        if src.pulled != before:
+            return "filter read %d items when it was applied; it is lazy" % (src.pulled - before)
+        exp = [x for x in rest if p_model(x)]
+        got = outcome(lambda: list(s))
+        if got[0] != "ok" or len(got[1]) != len(exp) or any(type(a) is not type(b) or a != b or repr(a) != repr(b) for a, b in zip(got[1], exp)):
+            return "Stream(%r).filter(%s) yields %r; the items satisfying the function are %r" % (rest, inp["pred"], got, exp)
         return None
 
 
